@@ -42,8 +42,25 @@ namespace w_lexer
     constexpr char pattern[] = "(ab|c)*d{2}[^x-z]?.+";
     constexpr regex::expr<pattern> r;
 
+    // functors that read everything a term value carries (value, source point, line, column)
+    constexpr char num_pattern[] = "[0-9]+";
+    constexpr regex_term<num_pattern> num("num");
+    constexpr nterm<int> where("where");
+    constexpr parser pw(
+        where,
+        terms(num, '@'),
+        nterms(where),
+        rules(
+            where(num) >= [](term_value<std::string_view> v)
+                { return int(v.get_value().size()) + int(v.get_line()) + int(v.get_column()) + int(v.get_sp().line); },
+            where(where, '@', num) >= [](int a, term_value<char> at, const auto& n)
+                { return a + int(at.get_column()) + int(n.get_sp().column); }
+        )
+    );
+
     void all()
     {
+        (void)pw.parse(cstring_buffer("1@22"));
         std::stringstream ss;
         std::string text = "1,2";
         (void)p.parse(cstring_buffer("1,2"));
